@@ -774,6 +774,7 @@ func runC03(c *Ctx) {
 	rulePacketRead(c, p, "C03.packet-read")
 	ruleEndMarker(c, p, "C03.endmarker")
 	ruleChainComplete(c, p, "C03.chain")
+	ruleFreshTargets(c, p, "C03.fresh")
 	ruleReaderSource(c, p, "C03.source")
 	ruleReadFull(c, p, "C03.readfull")
 	{
